@@ -72,6 +72,7 @@ fn main() {
         "C14-child" => c14::child(&args[1..]),
         "C03-growth-child" => c03::growth_child(),
         "C12-cpp-child" => c12::cpp_child(&args[1..]),
+        "C16-alloc-child" => c16::alloc_child(),
         "C15" => c15::main(&args[1..]),
         "C16" => c16::main(&args[1..]),
         "C17" => c17::main(&args[1..]),
